@@ -1,6 +1,1686 @@
-//! C04 — harness module not built yet.
+//! C04 — mints happen only inside the sale window and only for entitled buyers.
+//! Six vending minters and three open-edition minters x their compatible whitelist kinds.
+//!
+//! Histories walk the clock over every boundary instant (t-1ns, t, t+1ns) of the minter
+//! start, the open-edition end, the whitelist window(s) and every stage edge, with
+//! members, non-members, members of another stage, Merkle proofs (own, someone else's,
+//! none), schedule updates (UpdateStartTime, UpdateEndTime, SetWhitelist) at their own
+//! boundaries, and random interleavings.  Monitors are written from the property text and
+//! look only at what the contracts' queries said right before each step and at what the
+//! step did.  Every minter step is also printed for the Coq models (corr/C04Corr.v).
+use crate::chain::{self, App};
+use crate::oe_world::{OeCfg, OeOp, OeWorld, SpareWl, OE_VARIANTS};
+use crate::util::*;
+use crate::w_sale::*;
 use crate::Args;
-pub fn run(_a: &Args) {
-    eprintln!("C04: harness module not built yet");
-    std::process::exit(2);
+use cosmwasm_std::{coin, Addr};
+use cw_multi_test::Executor;
+use serde::{Deserialize, Serialize};
+use serde_json::{json, Value};
+use std::collections::{BTreeMap, BTreeSet};
+
+const NS: u64 = 1_000_000_000;
+const M1: &str = "buyer1";
+const M2: &str = "buyer2";
+const NM: &str = "buyer3";
+
+/// an instant relative to world creation: seconds + signed nanoseconds
+#[derive(Clone, Copy, Debug, Serialize, Deserialize, PartialEq, Eq, PartialOrd, Ord)]
+pub struct T(pub u64, pub i64);
+impl T {
+    fn plus(self, d: i64) -> T {
+        T(self.0, self.1 + d)
+    }
+    fn ns(self) -> i128 {
+        self.0 as i128 * NS as i128 + self.1 as i128
+    }
+}
+
+#[derive(Clone, Copy, Debug, Serialize, Deserialize, PartialEq, Eq)]
+pub enum Kind {
+    Plain,
+    Tiered,
+    Flex,
+    TieredFlex,
+    Merkle,
+    TieredMerkle,
+}
+impl Kind {
+    fn tiered(self) -> bool {
+        matches!(self, Kind::Tiered | Kind::TieredFlex | Kind::TieredMerkle)
+    }
+    fn merkle(self) -> bool {
+        matches!(self, Kind::Merkle | Kind::TieredMerkle)
+    }
+    fn flex(self) -> bool {
+        matches!(self, Kind::Flex | Kind::TieredFlex)
+    }
+    fn code_key(self) -> &'static str {
+        match self {
+            Kind::Plain => "plain",
+            Kind::Tiered => "tiered",
+            Kind::Flex => "flex",
+            Kind::TieredFlex => "tiered-flex",
+            Kind::Merkle => "merkle",
+            Kind::TieredMerkle => "tiered-merkle",
+        }
+    }
+    fn name(self) -> &'static str {
+        self.code_key()
+    }
+    /// index understood by oe_world::OeWl::from_u8
+    fn oe_u8(self) -> u8 {
+        match self {
+            Kind::Plain => 0,
+            Kind::Tiered => 1,
+            Kind::Flex => 2,
+            Kind::TieredFlex => 3,
+            Kind::Merkle => 4,
+            Kind::TieredMerkle => 5,
+        }
+    }
+}
+
+/// minter family + variant index inside it
+#[derive(Clone, Copy, Debug, Serialize, Deserialize, PartialEq, Eq)]
+pub struct Fam {
+    pub oe: bool,
+    pub variant: usize,
+}
+impl Fam {
+    fn name(self) -> &'static str {
+        if self.oe {
+            OE_VARIANTS[self.variant].name
+        } else {
+            VARIANTS[self.variant].name
+        }
+    }
+    fn merkle(self) -> bool {
+        if self.oe {
+            OE_VARIANTS[self.variant].merkle
+        } else {
+            VARIANTS[self.variant].merkle
+        }
+    }
+    fn flex(self) -> bool {
+        if self.oe {
+            OE_VARIANTS[self.variant].flex
+        } else {
+            VARIANTS[self.variant].flex
+        }
+    }
+    /// whitelist kinds the variant is meant to be paired with
+    fn compatible(self) -> &'static [Kind] {
+        if self.flex() {
+            &[Kind::Flex, Kind::TieredFlex]
+        } else if self.merkle() {
+            if self.oe {
+                // the open-edition Merkle minter accepts nothing but a verified proof
+                &[Kind::Merkle, Kind::TieredMerkle]
+            } else {
+                &[Kind::Plain, Kind::Tiered, Kind::Merkle, Kind::TieredMerkle]
+            }
+        } else {
+            &[Kind::Plain, Kind::Tiered]
+        }
+    }
+    /// what an airdrop costs with the factory parameters the worlds are created with
+    fn airdrop_funds(self) -> Vec<(String, u128)> {
+        if self.oe {
+            native(40)
+        } else {
+            vec![]
+        }
+    }
+}
+fn all_fams() -> Vec<Fam> {
+    let mut v: Vec<Fam> = (0..6).map(|i| Fam { oe: false, variant: i }).collect();
+    v.extend((0..3).map(|i| Fam { oe: true, variant: i }));
+    v
+}
+
+#[derive(Clone, Debug, Serialize, Deserialize)]
+pub struct StageSpec {
+    pub start: T,
+    pub end: T,
+    pub price: u128,
+    pub members: Vec<String>,
+    pub stage_limit: Option<u32>,
+}
+#[derive(Clone, Debug, Serialize, Deserialize)]
+pub struct WlSpec {
+    pub kind: Kind,
+    pub stages: Vec<StageSpec>,
+    pub limit: u32,
+    /// Merkle leaf format: 0 sender; 1 sender+allocation; 2 stage+sender; 3 stage+sender+allocation
+    pub leaf_fmt: u8,
+}
+
+#[derive(Clone, Debug, Serialize, Deserialize)]
+pub enum COp {
+    At(T),
+    /// the plain mint message (Merkle variants: all three arguments absent)
+    Mint { who: String, funds: Vec<(String, u128)> },
+    /// explicit Merkle arguments (malformed / adversarial streams)
+    MintArgs { who: String, funds: Vec<(String, u128)>, stage: Option<u32>, proof: Option<Vec<String>>, allocation: Option<u32> },
+    /// Mint with Merkle arguments: the proof is the one of `proof_for`'s leaf in tree `tree` of
+    /// the whitelist in `slot` (None: no proof is sent); stage/allocation are that tree's
+    MintP { who: String, funds: Vec<(String, u128)>, slot: usize, tree: usize, proof_for: Option<String> },
+    MintTo { who: String, recipient: String, funds: Vec<(String, u128)> },
+    /// vending only
+    MintFor { who: String, token_id: u32, recipient: String },
+    UpdateStart { who: String, t: T },
+    /// open edition only
+    UpdateEnd { who: String, t: T },
+    /// SetWhitelist{address of the whitelist in `slot`}
+    Attach { who: String, slot: usize },
+    /// the whitelist admin adds `who` to stage 0 / the list of the attached whitelist
+    WlAddMember { who: String },
+}
+
+#[derive(Clone, Debug, Serialize, Deserialize)]
+pub struct Case {
+    pub label: String,
+    pub fam: Fam,
+    pub num_tokens: u32,
+    pub pal: u32,
+    pub price: u128,
+    pub start_in: u64,
+    /// open edition: end time (None = no end time; then num_tokens is the cap)
+    pub end_in: Option<u64>,
+    /// whitelists created with the world (before the balance snapshot), by slot; a case that
+    /// wants one attached from the beginning starts with an Attach at creation time
+    pub wls: Vec<WlSpec>,
+    pub ops: Vec<COp>,
+}
+
+// ---------- Merkle trees as the two Merkle whitelists verify them ----------
+fn h_plain(b: &[u8]) -> Vec<u8> {
+    use sha2::{Digest, Sha256};
+    Sha256::digest(b).to_vec()
+}
+fn h_tiered(b: &[u8]) -> Vec<u8> {
+    blake3::hash(b).as_bytes()[..16].to_vec()
+}
+fn pair(h: fn(&[u8]) -> Vec<u8>, a: &[u8], b: &[u8]) -> Vec<u8> {
+    let (x, y) = if a <= b { (a, b) } else { (b, a) };
+    let mut c = x.to_vec();
+    c.extend_from_slice(y);
+    h(&c)
+}
+/// root and the proof of leaf `idx` (sorted-pair hashing, an odd node is promoted)
+fn merkle(h: fn(&[u8]) -> Vec<u8>, leaves: &[String], idx: Option<usize>) -> (String, Vec<String>) {
+    let mut level: Vec<Vec<u8>> = leaves.iter().map(|l| h(l.as_bytes())).collect();
+    let mut i = idx.unwrap_or(0);
+    let mut proof = vec![];
+    while level.len() > 1 {
+        if i ^ 1 < level.len() {
+            proof.push(hex::encode(&level[i ^ 1]));
+        }
+        let mut next = vec![];
+        for k in (0..level.len()).step_by(2) {
+            if k + 1 < level.len() {
+                next.push(pair(h, &level[k], &level[k + 1]));
+            } else {
+                next.push(level[k].clone());
+            }
+        }
+        level = next;
+        i /= 2;
+    }
+    (hex::encode(&level[0]), if idx.is_some() { proof } else { vec![] })
+}
+
+impl WlSpec {
+    fn hasher(&self) -> fn(&[u8]) -> Vec<u8> {
+        if self.kind == Kind::TieredMerkle {
+            h_tiered
+        } else {
+            h_plain
+        }
+    }
+    /// (stage, allocation) arguments bound into the leaves of tree `tree`
+    fn leaf_args(&self, tree: usize) -> (Option<u32>, Option<u32>) {
+        let st = Some(tree as u32 + 1);
+        let al = Some(self.limit);
+        match self.leaf_fmt {
+            0 => (None, None),
+            1 => (None, al),
+            2 => (st, None),
+            _ => (st, al),
+        }
+    }
+    fn leaf(&self, tree: usize, who: &str) -> String {
+        match self.leaf_args(tree) {
+            (None, Some(a)) => format!("{}{}", who, a),
+            (Some(s), None) => format!("{}{}", s, who),
+            (Some(s), Some(a)) => format!("{}{}{}", s, who, a),
+            (None, None) => who.to_string(),
+        }
+    }
+    fn leaves(&self, tree: usize) -> Vec<String> {
+        let mut v: Vec<String> = self.stages[tree].members.iter().map(|m| self.leaf(tree, m)).collect();
+        v.push("padding-a".into());
+        v.push("padding-b".into());
+        v.push("padding-c".into());
+        v
+    }
+    fn root(&self, tree: usize) -> String {
+        merkle(self.hasher(), &self.leaves(tree), None).0
+    }
+    /// proof of `who`'s leaf in `tree`; for a non-member the proof of the first padding leaf
+    fn proof(&self, tree: usize, who: &str) -> Vec<String> {
+        let ls = self.leaves(tree);
+        let idx = ls.iter().position(|l| *l == self.leaf(tree, who)).unwrap_or(self.stages[tree].members.len());
+        merkle(self.hasher(), &ls, Some(idx)).1
+    }
+}
+
+// ---------- the whitelists of a running case ----------
+struct WlInfo {
+    spec: WlSpec,
+    addr: Addr,
+    /// absolute (start, end) per stage
+    windows: Vec<(u64, u64)>,
+    /// members added to stage 0 after creation (WlAddMember)
+    added: BTreeSet<String>,
+}
+impl WlInfo {
+    /// the property's activity rule, from the windows the whitelist was created with
+    fn active_stage(&self, now: u64) -> Option<usize> {
+        if self.spec.kind.tiered() {
+            self.windows.iter().position(|(s, e)| *s <= now && now <= *e)
+        } else if self.windows[0].0 <= now && now < self.windows[0].1 {
+            Some(0)
+        } else {
+            None
+        }
+    }
+    fn listed(&self, stage: usize, who: &str) -> bool {
+        self.spec.stages[stage].members.iter().any(|m| m == who) || (stage == 0 && self.added.contains(who))
+    }
+}
+
+fn ts(n: u64) -> Value {
+    json!(n.to_string())
+}
+fn coinv(amount: u128, denom: &str) -> Value {
+    json!({"amount": amount.to_string(), "denom": denom})
+}
+
+/// instantiate message and creation fee of a whitelist of the given kind
+fn wl_msg(spec: &WlSpec, windows: &[(u64, u64)]) -> (Value, u128) {
+    let flexm = |ms: &Vec<String>| -> Vec<Value> { ms.iter().map(|m| json!({"address": m, "mint_count": spec.limit})).collect() };
+    let s0 = &spec.stages[0];
+    let stages_json = |with_pal: bool| -> Vec<Value> {
+        spec.stages
+            .iter()
+            .enumerate()
+            .map(|(i, s)| {
+                let mut v = json!({"name": format!("stage{}", i + 1), "start_time": ts(windows[i].0), "end_time": ts(windows[i].1),
+                                   "mint_price": coinv(s.price, NATIVE), "mint_count_limit": s.stage_limit});
+                if with_pal {
+                    v["per_address_limit"] = json!(spec.limit);
+                }
+                v
+            })
+            .collect()
+    };
+    match spec.kind {
+        Kind::Plain => (
+            json!({"members": s0.members, "start_time": ts(windows[0].0), "end_time": ts(windows[0].1),
+                   "mint_price": coinv(s0.price, NATIVE), "per_address_limit": spec.limit, "member_limit": 1000,
+                   "admins": [CREATOR], "admins_mutable": true}),
+            100_000_000u128,
+        ),
+        Kind::Flex => (
+            json!({"members": flexm(&s0.members), "start_time": ts(windows[0].0), "end_time": ts(windows[0].1),
+                   "mint_price": coinv(s0.price, NATIVE), "member_limit": 1000, "admins": [CREATOR],
+                   "admins_mutable": true, "whale_cap": null}),
+            100_000_000,
+        ),
+        Kind::Tiered => (
+            json!({"members": spec.stages.iter().map(|s| s.members.clone()).collect::<Vec<_>>(), "stages": stages_json(true),
+                   "member_limit": 1000, "admins": [CREATOR], "admins_mutable": true}),
+            100_000_000,
+        ),
+        Kind::TieredFlex => (
+            json!({"members": spec.stages.iter().map(|s| flexm(&s.members)).collect::<Vec<_>>(), "stages": stages_json(false),
+                   "member_limit": 1000, "admins": [CREATOR], "admins_mutable": true, "whale_cap": null}),
+            100_000_000,
+        ),
+        Kind::Merkle => (
+            json!({"merkle_root": spec.root(0), "merkle_tree_uri": null, "start_time": ts(windows[0].0), "end_time": ts(windows[0].1),
+                   "mint_price": coinv(s0.price, NATIVE), "per_address_limit": spec.limit,
+                   "admins": [CREATOR], "admins_mutable": true}),
+            1_000_000_000,
+        ),
+        Kind::TieredMerkle => (
+            json!({"stages": stages_json(true), "merkle_roots": (0..spec.stages.len()).map(|i| spec.root(i)).collect::<Vec<_>>(),
+                   "merkle_tree_uris": null, "admins": [CREATOR], "admins_mutable": true}),
+            1_000_000_000,
+        ),
+    }
+}
+
+type MArgs = (Option<u32>, Option<Vec<String>>, Option<u32>);
+
+/// what the monitors and the driver need from a sale world (vending or open edition)
+trait World {
+    fn app(&self) -> &App;
+    fn t0(&self) -> u64;
+    fn abs(&self, t: T) -> u64 {
+        (self.t0() as i128 + t.ns()) as u64
+    }
+    /// instantiate a whitelist (admin and payer: CREATOR) and make it attachable as `slot`
+    fn add_whitelist(&mut self, slot: usize, kind: Kind, msg: &Value, fee: u128) -> Result<Addr, String>;
+    fn minter_config(&self) -> Value;
+    fn mintable(&self) -> Option<u64>;
+    fn mint_count(&self, who: &str) -> u64;
+    fn balances_raw(&self) -> BTreeMap<(String, String), u128>;
+    fn snapshot(&mut self) -> (String, String);
+    fn finish(&mut self, init: &str, bal: &str, steps: &[String], probes: &[String]) -> String;
+    fn at(&mut self, t: T);
+    fn mint(&mut self, who: &str, funds: &[(String, u128)], margs: &Option<MArgs>) -> StepOut;
+    fn mint_to(&mut self, who: &str, recipient: &str, funds: &[(String, u128)]) -> StepOut;
+    fn mint_for(&mut self, who: &str, token_id: u32, recipient: &str) -> Option<StepOut>;
+    fn update_start(&mut self, who: &str, t: T) -> StepOut;
+    fn update_end(&mut self, who: &str, t: T) -> Option<StepOut>;
+    fn attach(&mut self, who: &str, slot: usize, wl: &Addr, kind: Kind) -> StepOut;
+    fn exec_other(&mut self, who: &str, contract: &Addr, msg: &Value) -> bool;
+}
+
+fn instantiate_wl(app: &mut App, code_id: u64, msg: &Value, fee: u128) -> Result<Addr, String> {
+    let funds = if fee > 0 { vec![coin(fee, NATIVE)] } else { vec![] };
+    match crate::util::catch(|| app.instantiate_contract(code_id, Addr::unchecked(CREATOR), msg, &funds, "wl", None)) {
+        Ok(Ok(a)) => Ok(a),
+        Ok(Err(e)) => Err(format!("whitelist: {:#}", e)),
+        Err(p) => Err(p),
+    }
+}
+
+// ----- vending -----
+struct VWorld(SaleWorld);
+impl VWorld {
+    /// SetWhitelist{existing address} as a recorded minter step (w_sale's own SetWhitelist op
+    /// creates its whitelist on the spot, which cannot express replacing by a given one)
+    fn attach_step(&mut self, who: &str, wl: &Addr) -> StepOut {
+        let w = &mut self.0;
+        let now = chain::now(&w.app);
+        w.proof_ctx = None;
+        let fp = w.fp_coq();
+        let wv = w.cur_wl_view(who);
+        let before_digest = chain::storage_digest(&w.app, &w.minter);
+        let before_bal = w.balances_raw();
+        let before_tokens = w.num_tokens_collection();
+        let sender_id = w.addrs.id(who);
+        let minter = w.minter.clone();
+        let minter_id = w.addrs.id(minter.as_str());
+        let env = format!("(mkEnv {} {} [] {})", now, sender_id, minter_id);
+        let new_view = w.wl_view(wl, who).unwrap_or_else(|| "None".into());
+        let res = chain::exec(&mut w.app, who, &minter, &json!({"set_whitelist": {"whitelist": wl.to_string()}}), &[]);
+        let ok = res.is_ok();
+        let coq_op = format!("(OSetWhitelist true {} {})", w.addrs.id(wl.as_str()), new_view);
+        let wv_after = w.cur_wl_view(who);
+        let obs = w.observe();
+        let obs_coq = coq_list(&obs.iter().map(|x| x.to_string()).collect::<Vec<_>>());
+        let bal = w.balances_coq();
+        let coq = format!("(mkStep {} {} {} {} {} None {} {} {})", env, fp, wv, coq_op, coq_bool(ok), wv_after, obs_coq, bal);
+        let mut err = res.err();
+        if !ok {
+            let after_digest = chain::storage_digest(&w.app, &w.minter);
+            if after_digest != before_digest || w.balances_raw() != before_bal || w.num_tokens_collection() != before_tokens {
+                err = Some(format!("STATE-CHANGED-ON-FAILURE: {}", err.unwrap_or_default()));
+            }
+        }
+        StepOut { coq: Some(coq), ok, err, minted: None, is_minter_step: true }
+    }
+}
+impl World for VWorld {
+    fn app(&self) -> &App {
+        &self.0.app
+    }
+    fn t0(&self) -> u64 {
+        self.0.t0
+    }
+    fn add_whitelist(&mut self, _slot: usize, kind: Kind, msg: &Value, fee: u128) -> Result<Addr, String> {
+        self.0.make_whitelist_raw(kind.code_key(), msg, fee)
+    }
+    fn minter_config(&self) -> Value {
+        self.0.minter_config()
+    }
+    fn mintable(&self) -> Option<u64> {
+        Some(self.0.mintable())
+    }
+    fn mint_count(&self, who: &str) -> u64 {
+        self.0.mint_count(who).0
+    }
+    fn balances_raw(&self) -> BTreeMap<(String, String), u128> {
+        self.0.balances_raw()
+    }
+    fn snapshot(&mut self) -> (String, String) {
+        (self.0.init_state_coq(), self.0.balances_coq())
+    }
+    fn finish(&mut self, init: &str, bal: &str, steps: &[String], probes: &[String]) -> String {
+        format!("(mkC04 {} {})", case_coq(&mut self.0, init, bal, steps), coq_list(probes))
+    }
+    fn at(&mut self, t: T) {
+        self.0.run(&Op::At { secs: t.0, nanos: t.1 });
+    }
+    fn mint(&mut self, who: &str, funds: &[(String, u128)], margs: &Option<MArgs>) -> StepOut {
+        match margs {
+            Some((stage, proof, allocation)) if self.0.v.merkle => self.0.run(&Op::MintM {
+                who: who.into(),
+                funds: funds.to_vec(),
+                stage: *stage,
+                proof: proof.clone(),
+                allocation: *allocation,
+            }),
+            _ => self.0.run(&Op::Mint { who: who.into(), funds: funds.to_vec() }),
+        }
+    }
+    fn mint_to(&mut self, who: &str, recipient: &str, funds: &[(String, u128)]) -> StepOut {
+        self.0.run(&Op::MintTo { who: who.into(), recipient: recipient.into(), funds: funds.to_vec() })
+    }
+    fn mint_for(&mut self, who: &str, token_id: u32, recipient: &str) -> Option<StepOut> {
+        Some(self.0.run(&Op::MintFor { who: who.into(), token_id, recipient: recipient.into(), funds: vec![] }))
+    }
+    fn update_start(&mut self, who: &str, t: T) -> StepOut {
+        self.0.run(&Op::UpdateStartTime { who: who.into(), secs: t.0, nanos: t.1 })
+    }
+    fn update_end(&mut self, _who: &str, _t: T) -> Option<StepOut> {
+        None
+    }
+    fn attach(&mut self, who: &str, _slot: usize, wl: &Addr, _kind: Kind) -> StepOut {
+        self.attach_step(who, wl)
+    }
+    fn exec_other(&mut self, who: &str, contract: &Addr, msg: &Value) -> bool {
+        chain::exec(&mut self.0.app, who, contract, msg, &[]).is_ok()
+    }
+}
+
+// ----- open edition -----
+struct OWorld(OeWorld);
+impl World for OWorld {
+    fn app(&self) -> &App {
+        &self.0.app
+    }
+    fn t0(&self) -> u64 {
+        self.0.t0
+    }
+    fn add_whitelist(&mut self, slot: usize, kind: Kind, msg: &Value, fee: u128) -> Result<Addr, String> {
+        let code = self.0.wl_code[kind.code_key()];
+        let a = instantiate_wl(&mut self.0.app, code, msg, fee)?;
+        self.0.addrs.id(a.as_str());
+        // attachable through OeOp::SetWhitelist{spare: slot}
+        while self.0.spares.len() <= slot {
+            self.0.spares.push(None);
+            self.0.cfg.spares.push(SpareWl { kind: kind.oe_u8(), start_in: 0, end_in: 0, price: 0, ibc: false });
+        }
+        self.0.spares[slot] = Some(a.clone());
+        self.0.cfg.spares[slot].kind = kind.oe_u8();
+        Ok(a)
+    }
+    fn minter_config(&self) -> Value {
+        self.0.minter_config()
+    }
+    fn mintable(&self) -> Option<u64> {
+        self.0.mintable()
+    }
+    fn mint_count(&self, who: &str) -> u64 {
+        self.0.mint_count(who).0
+    }
+    fn balances_raw(&self) -> BTreeMap<(String, String), u128> {
+        self.0.balances_raw()
+    }
+    fn snapshot(&mut self) -> (String, String) {
+        (self.0.init_state_coq(), self.0.balances_coq())
+    }
+    fn finish(&mut self, init: &str, bal: &str, steps: &[String], probes: &[String]) -> String {
+        format!("(mkC04O {} {})", self.0.case_coq(init, bal, steps), coq_list(probes))
+    }
+    fn at(&mut self, t: T) {
+        self.0.run(&OeOp::At { secs: t.0, nanos: t.1 });
+    }
+    fn mint(&mut self, who: &str, funds: &[(String, u128)], margs: &Option<MArgs>) -> StepOut {
+        match margs {
+            Some((stage, proof, allocation)) => self.0.run(&OeOp::MintM {
+                who: who.into(),
+                funds: funds.to_vec(),
+                stage: *stage,
+                proof: proof.clone(),
+                allocation: *allocation,
+            }),
+            None => self.0.run(&OeOp::MintM { who: who.into(), funds: funds.to_vec(), stage: None, proof: None, allocation: None }),
+        }
+    }
+    fn mint_to(&mut self, who: &str, recipient: &str, funds: &[(String, u128)]) -> StepOut {
+        self.0.run(&OeOp::MintTo { who: who.into(), recipient: recipient.into(), funds: funds.to_vec() })
+    }
+    fn mint_for(&mut self, _who: &str, _token_id: u32, _recipient: &str) -> Option<StepOut> {
+        None
+    }
+    fn update_start(&mut self, who: &str, t: T) -> StepOut {
+        self.0.run(&OeOp::UpdateStartTime { who: who.into(), secs: t.0, nanos: t.1 })
+    }
+    fn update_end(&mut self, who: &str, t: T) -> Option<StepOut> {
+        Some(self.0.run(&OeOp::UpdateEndTime { who: who.into(), secs: t.0, nanos: t.1 }))
+    }
+    fn attach(&mut self, who: &str, slot: usize, _wl: &Addr, _kind: Kind) -> StepOut {
+        self.0.run(&OeOp::SetWhitelist { who: who.into(), spare: slot })
+    }
+    fn exec_other(&mut self, who: &str, contract: &Addr, msg: &Value) -> bool {
+        chain::exec(&mut self.0.app, who, contract, msg, &[]).is_ok()
+    }
+}
+
+fn new_world(c: &Case) -> Result<Box<dyn World>, String> {
+    if c.fam.oe {
+        let mut cfg = OeCfg::basic(c.fam.variant);
+        cfg.fp.max_token_limit = 60;
+        cfg.num_tokens = if c.num_tokens == 0 { None } else { Some(c.num_tokens) };
+        cfg.end_in_secs = c.end_in;
+        cfg.pal = c.pal;
+        cfg.price = c.price;
+        cfg.start_in_secs = c.start_in;
+        Ok(Box::new(OWorld(OeWorld::new(cfg)?)))
+    } else {
+        let mut cfg = SaleCfg::basic(c.fam.variant);
+        cfg.num_tokens = c.num_tokens;
+        cfg.pal = c.pal;
+        cfg.price = c.price;
+        cfg.start_in_secs = c.start_in;
+        Ok(Box::new(VWorld(SaleWorld::new(cfg)?)))
+    }
+}
+
+// ---------- what the contracts say right before a step ----------
+struct Pre {
+    now: u64,
+    start: u64,
+    end: Option<u64>,
+    wl: Option<String>,
+    /// Config.is_active and the IsActive query of the attached whitelist
+    active_cfg: Option<bool>,
+    active_q: Option<bool>,
+    wl_price: Option<(u128, String)>,
+    stage_id: Option<u64>,
+    public_price: (u128, String),
+    mintable: Option<u64>,
+    pal: u64,
+}
+fn q(app: &App, a: &str, m: Value) -> Option<Value> {
+    app.wrap().query_wasm_smart::<Value>(Addr::unchecked(a), &m).ok()
+}
+fn read_pre(w: &dyn World) -> Pre {
+    let c = w.minter_config();
+    let start: u64 = c["start_time"].as_str().unwrap().parse().unwrap();
+    let end: Option<u64> = c.get("end_time").and_then(|e| e.as_str()).map(|s| s.parse().unwrap());
+    let wl = c["whitelist"].as_str().map(|s| s.to_string());
+    let p = if c.get("discount_price").map(|d| d.get("amount").is_some()).unwrap_or(false) { &c["discount_price"] } else { &c["mint_price"] };
+    let public_price = (p["amount"].as_str().unwrap().parse().unwrap(), p["denom"].as_str().unwrap().to_string());
+    let mut pre = Pre {
+        now: chain::now(w.app()),
+        start,
+        end,
+        wl: wl.clone(),
+        active_cfg: None,
+        active_q: None,
+        wl_price: None,
+        stage_id: None,
+        public_price,
+        mintable: w.mintable(),
+        pal: c["per_address_limit"].as_u64().unwrap(),
+    };
+    if let Some(a) = wl {
+        if let Some(cfg) = q(w.app(), &a, json!({"config": {}})) {
+            pre.active_cfg = cfg["is_active"].as_bool();
+            pre.wl_price = cfg["mint_price"]["amount"]
+                .as_str()
+                .and_then(|x| x.parse().ok())
+                .map(|x| (x, cfg["mint_price"]["denom"].as_str().unwrap_or("").to_string()));
+        }
+        pre.active_q = q(w.app(), &a, json!({"is_active": {}})).and_then(|v| v["is_active"].as_bool());
+        pre.stage_id = q(w.app(), &a, json!({"active_stage_id": {}})).and_then(|v| v.as_u64());
+    }
+    pre
+}
+
+fn kind_of(op: &COp) -> &'static str {
+    match op {
+        COp::At(_) => "at",
+        COp::Mint { .. } => "mint",
+        COp::MintArgs { .. } | COp::MintP { .. } => "mint_merkle",
+        COp::MintTo { .. } => "mint_to",
+        COp::MintFor { .. } => "mint_for",
+        COp::UpdateStart { .. } => "update_start_time",
+        COp::UpdateEnd { .. } => "update_end_time",
+        COp::Attach { .. } => "set_whitelist",
+        COp::WlAddMember { .. } => "wl_add_member",
+    }
+}
+
+pub struct CaseResult {
+    pub coq: Option<String>,
+    pub steps: u64,
+    pub ok_steps: u64,
+    pub violations: Vec<(String, String, usize)>, // (key, what, op index)
+    pub hist: BTreeMap<String, u64>,
+    pub instants: BTreeSet<String>,
+    /// things worth telling that are not violations of the property text
+    pub observations: BTreeMap<String, u64>,
+}
+
+pub fn run_case(c: &Case) -> CaseResult {
+    let mut res = CaseResult {
+        coq: None,
+        steps: 0,
+        ok_steps: 0,
+        violations: vec![],
+        hist: BTreeMap::new(),
+        instants: BTreeSet::new(),
+        observations: BTreeMap::new(),
+    };
+    let vname = c.fam.name();
+    let mut wb = match new_world(c) {
+        Ok(w) => w,
+        Err(e) => {
+            *res.hist.entry(format!("{}:create:err", vname)).or_insert(0) += 1;
+            res.violations.push(("C04:harness-world-not-created".into(), format!("{}: {}", vname, e), 0));
+            return res;
+        }
+    };
+    let w: &mut dyn World = wb.as_mut();
+    let mut wls: Vec<WlInfo> = vec![];
+    for (slot, spec) in c.wls.iter().enumerate() {
+        let windows: Vec<(u64, u64)> = spec.stages.iter().map(|s| (w.abs(s.start), w.abs(s.end))).collect();
+        let (msg, fee) = wl_msg(spec, &windows);
+        match w.add_whitelist(slot, spec.kind, &msg, fee) {
+            Ok(addr) => wls.push(WlInfo { spec: spec.clone(), addr, windows, added: BTreeSet::new() }),
+            Err(e) => {
+                *res.hist.entry(format!("{}:create-whitelist-{}:err", vname, spec.kind.name())).or_insert(0) += 1;
+                res.violations.push(("C04:harness-whitelist-not-created".into(), format!("{}: {:?}: {}", vname, spec.kind, e), 0));
+                return res;
+            }
+        }
+    }
+    let (init, init_bal) = w.snapshot();
+    let mut steps: Vec<String> = vec![];
+    let mut probes: Vec<String> = vec![];
+    // monitor state: successes per sender under the public rules / per (sender, whitelist, stage)
+    let mut pub_ok: BTreeMap<String, u64> = BTreeMap::new();
+    let mut wl_ok: BTreeMap<(String, String, usize), u64> = BTreeMap::new();
+    let mut stage_ok: BTreeMap<(String, usize), u64> = BTreeMap::new();
+    let wl_label = c.wls.first().map(|s| s.kind.name()).unwrap_or("none");
+
+    for (oi, cop) in c.ops.iter().enumerate() {
+        // ----- ops that are not minter steps -----
+        match cop {
+            COp::At(t) => {
+                w.at(*t);
+                continue;
+            }
+            COp::WlAddMember { who } => {
+                let cur = w.minter_config()["whitelist"].as_str().map(|s| s.to_string());
+                if let Some(i) = cur.and_then(|a| wls.iter_mut().find(|i| i.addr.as_str() == a)) {
+                    let msg = match i.spec.kind {
+                        Kind::Plain => json!({"add_members": {"to_add": [who]}}),
+                        Kind::Tiered => json!({"add_members": {"to_add": [who], "stage_id": 0}}),
+                        Kind::Flex => json!({"add_members": {"to_add": [{"address": who, "mint_count": i.spec.limit}]}}),
+                        Kind::TieredFlex => json!({"add_members": {"to_add": [{"address": who, "mint_count": i.spec.limit}], "stage_id": 0}}),
+                        _ => continue,
+                    };
+                    let a = i.addr.clone();
+                    if w.exec_other(CREATOR, &a, &msg) {
+                        i.added.insert(who.clone());
+                    }
+                }
+                continue;
+            }
+            _ => {}
+        }
+        // ----- Merkle arguments actually sent -----
+        let margs: Option<MArgs> = match cop {
+            COp::MintArgs { stage, proof, allocation, .. } => Some((*stage, proof.clone(), *allocation)),
+            COp::MintP { slot, tree, proof_for, .. } => Some(match wls.get(*slot) {
+                Some(i) if i.spec.kind.merkle() => {
+                    let t = (*tree).min(i.spec.stages.len() - 1);
+                    let (s, a) = i.spec.leaf_args(t);
+                    (s, proof_for.as_ref().map(|p| i.spec.proof(t, p)), a)
+                }
+                _ => (None, proof_for.as_ref().map(|p| vec![hex::encode(h_plain(p.as_bytes()))]), None),
+            }),
+            _ => None,
+        };
+        let margs = if c.fam.merkle() { margs } else { None };
+        // ----- read the schedule back from the contracts -----
+        let pre = read_pre(w);
+        let count_before: u64 = match cop {
+            COp::MintP { who, .. } | COp::Mint { who, .. } | COp::MintArgs { who, .. } => w.mint_count(who),
+            _ => 0,
+        };
+        let bal_before = w.balances_raw();
+        let cur = pre.wl.as_ref().and_then(|a| wls.iter().position(|i| i.addr.as_str() == a));
+        res.instants.insert(format!("{}@{}", kind_of(cop), pre.now as i128 - w.t0() as i128));
+        // tie of the oracle: the attached whitelist's activity answers vs the windows it was created with
+        if let Some(ci) = cur {
+            let i = &wls[ci];
+            let spec_active = i.active_stage(pre.now);
+            let windows = coq_list(&i.windows.iter().map(|(s, e)| format!("({}, {})", s, e)).collect::<Vec<_>>());
+            probes.push(format!(
+                "(mkProbe {} {} {} {} {})",
+                coq_bool(i.spec.kind.tiered()),
+                windows,
+                pre.now,
+                coq_bool(pre.active_cfg.unwrap_or(false)),
+                pre.stage_id.unwrap_or(0)
+            ));
+            if pre.active_cfg != Some(spec_active.is_some()) || pre.active_q != Some(spec_active.is_some()) {
+                res.violations.push((
+                    "C04:whitelist-activity-vs-window".into(),
+                    format!("{}: {} whitelist with windows {:?} at {}: Config.is_active={:?} IsActive={:?}, the windows say {}",
+                        vname, i.spec.kind.name(), i.windows, pre.now, pre.active_cfg, pre.active_q, spec_active.is_some()),
+                    oi,
+                ));
+            }
+            if i.spec.kind.tiered() && pre.stage_id != Some(spec_active.map(|x| x as u64 + 1).unwrap_or(0)) {
+                res.violations.push((
+                    "C04:whitelist-active-stage-vs-window".into(),
+                    format!("{}: {} whitelist with windows {:?} at {}: ActiveStageId={:?}, the windows say {:?}",
+                        vname, i.spec.kind.name(), i.windows, pre.now, pre.stage_id, spec_active.map(|x| x + 1)),
+                    oi,
+                ));
+            }
+        }
+        // ----- run it -----
+        let (out, who, funds): (StepOut, String, Vec<(String, u128)>) = match cop {
+            COp::Mint { who, funds } | COp::MintArgs { who, funds, .. } | COp::MintP { who, funds, .. } => (w.mint(who, funds, &margs), who.clone(), funds.clone()),
+            COp::MintTo { who, recipient, funds } => (w.mint_to(who, recipient, funds), who.clone(), funds.clone()),
+            COp::MintFor { who, token_id, recipient } => match w.mint_for(who, *token_id, recipient) {
+                Some(o) => (o, who.clone(), vec![]),
+                None => continue,
+            },
+            COp::UpdateStart { who, t } => (w.update_start(who, *t), who.clone(), vec![]),
+            COp::UpdateEnd { who, t } => match w.update_end(who, *t) {
+                Some(o) => (o, who.clone(), vec![]),
+                None => continue,
+            },
+            COp::Attach { who, slot } => match wls.get(*slot) {
+                Some(i) => {
+                    let (a, k) = (i.addr.clone(), i.spec.kind);
+                    (w.attach(who, *slot, &a, k), who.clone(), vec![])
+                }
+                None => continue,
+            },
+            COp::At(_) | COp::WlAddMember { .. } => continue,
+        };
+        if !out.is_minter_step {
+            continue;
+        }
+        res.steps += 1;
+        if out.ok {
+            res.ok_steps += 1;
+        }
+        *res.hist.entry(format!("{}+{}:{}:{}", vname, wl_label, kind_of(cop), if out.ok { "ok" } else { "err" })).or_insert(0) += 1;
+        if let Some(s) = out.coq {
+            steps.push(s);
+        }
+        if let Some(e) = &out.err {
+            if e.starts_with("STATE-CHANGED-ON-FAILURE") {
+                res.violations.push(("C04:failed-call-changed-state".into(), format!("{}: {:?}: {}", vname, cop, e), oi));
+            }
+        }
+        let post = w.minter_config();
+        let post_start: u64 = post["start_time"].as_str().unwrap().parse().unwrap();
+        let post_end: Option<u64> = post.get("end_time").and_then(|e| e.as_str()).map(|s| s.parse().unwrap());
+        let post_wl = post["whitelist"].as_str().map(|s| s.to_string());
+        let active = pre.wl.is_some() && pre.active_cfg == Some(true);
+        let ended = pre.end.map(|en| pre.now >= en).unwrap_or(false);
+        let bal_after = w.balances_raw();
+        let delta = |who: &str, d: &str| -> i128 {
+            let k = (who.to_string(), d.to_string());
+            *bal_before.get(&k).unwrap_or(&0) as i128 - *bal_after.get(&k).unwrap_or(&0) as i128
+        };
+        let exact = |p: &(u128, String)| -> bool { funds.len() == 1 && funds[0].0 == p.1 && funds[0].1 == p.0 };
+        let has_room = pre.mintable.map(|m| m > 0).unwrap_or(true);
+
+        // ===== monitors, from the property text =====
+        let is_buyer_mint = matches!(cop, COp::MintP { .. } | COp::Mint { .. } | COp::MintArgs { .. });
+        let is_any_mint = is_buyer_mint || matches!(cop, COp::MintTo { .. } | COp::MintFor { .. });
+        if is_any_mint && out.ok && ended {
+            res.violations.push((
+                "C04:mint-at-or-after-end".into(),
+                format!("{}: {:?} succeeded at {} >= end time {:?}", vname, cop, pre.now, pre.end),
+                oi,
+            ));
+        }
+        if is_buyer_mint {
+            // membership as the whitelist itself answers it for this sender (and this proof)
+            // and as the case's member lists / trees define it (asked after the step: the
+            // clock has not moved and a minter step cannot change a whitelist)
+            let (member_q, member_spec, stage_idx): (Option<bool>, Option<bool>, Option<usize>) = match cur {
+                Some(ci) => {
+                    let i = &wls[ci];
+                    let st = i.active_stage(pre.now);
+                    if i.spec.kind.merkle() {
+                        let (mq, ms) = match &margs {
+                            Some((stage, Some(proof), alloc)) => {
+                                let leaf = match (stage, alloc) {
+                                    (None, Some(a)) => format!("{}{}", who, a),
+                                    (Some(s), None) => format!("{}{}", s, who),
+                                    (Some(s), Some(a)) => format!("{}{}{}", s, who, a),
+                                    (None, None) => who.clone(),
+                                };
+                                let ans = q(w.app(), i.addr.as_str(), json!({"has_member": {"member": leaf, "proof_hashes": proof}}))
+                                    .and_then(|v| v["has_member"].as_bool());
+                                let spec = st.map(|s| i.listed(s, &who) && i.spec.leaf(s, &who) == leaf && i.spec.proof(s, &who) == *proof);
+                                (ans, spec)
+                            }
+                            _ => (Some(false), Some(false)), // no proof: no entitlement on a Merkle whitelist
+                        };
+                        (mq, ms, st)
+                    } else {
+                        let ans = q(w.app(), i.addr.as_str(), json!({"has_member": {"member": who}})).and_then(|v| v["has_member"].as_bool());
+                        (ans, st.map(|s| i.listed(s, &who)), st)
+                    }
+                }
+                None => (None, None, None),
+            };
+            if active && cur.is_some() && member_spec.is_some() && member_q.is_some() && member_q != member_spec {
+                res.violations.push((
+                    "C04:whitelist-membership-vs-lists".into(),
+                    format!("{}: whitelist answers has_member={:?} for {} at {}, the member lists / trees say {:?}", vname, member_q, who, pre.now, member_spec),
+                    oi,
+                ));
+            }
+            if out.ok {
+                if !active && pre.now < pre.start {
+                    res.violations.push((
+                        "C04:public-mint-before-start".into(),
+                        format!("{}: {:?} succeeded at {} with no active whitelist (whitelist {:?}, is_active {:?}), start time {}", vname, cop, pre.now, pre.wl, pre.active_cfg, pre.start),
+                        oi,
+                    ));
+                }
+                if active && member_q != Some(true) {
+                    res.violations.push((
+                        "C04:nonmember-mint-while-whitelist-active".into(),
+                        format!("{}: {:?} succeeded at {} while the whitelist is active and answers has_member={:?}", vname, cop, pre.now, member_q),
+                        oi,
+                    ));
+                }
+                if active && member_spec == Some(false) {
+                    res.violations.push((
+                        "C04:unentitled-mint-while-whitelist-active".into(),
+                        format!("{}: {:?} succeeded at {} while the whitelist is active; sender is not in the active stage's list / holds no proof bound to it", vname, cop, pre.now),
+                        oi,
+                    ));
+                }
+                if active {
+                    if let Some((p, d)) = &pre.wl_price {
+                        let other = if d == NATIVE { IBC } else { NATIVE };
+                        // the seller buying from itself gets the proceeds back: look at the funds it attached instead
+                        let charged_ok = if who == CREATOR { exact(&(*p, d.clone())) } else { delta(&who, d) == *p as i128 && delta(&who, other) == 0 };
+                        if !charged_ok {
+                            res.violations.push((
+                                "C04:whitelist-mint-not-charged-whitelist-price".into(),
+                                format!("{}: {:?} at {} under an active whitelist (price {} {}) cost the buyer {} {} / {} {}", vname, cop, pre.now, p, d, delta(&who, d), d, delta(&who, other), other),
+                                oi,
+                            ));
+                        }
+                        if let (Some(ci), Some(s)) = (cur, stage_idx) {
+                            if wls[ci].spec.stages[s].price != *p {
+                                res.violations.push((
+                                    "C04:whitelist-price-vs-stage".into(),
+                                    format!("{}: whitelist reports price {} at {}, the active stage was created with {}", vname, p, pre.now, wls[ci].spec.stages[s].price),
+                                    oi,
+                                ));
+                            }
+                        }
+                    }
+                    if let (Some(ci), Some(s)) = (cur, stage_idx) {
+                        *wl_ok.entry((who.clone(), wls[ci].addr.to_string(), s)).or_insert(0) += 1;
+                        *stage_ok.entry((wls[ci].addr.to_string(), s)).or_insert(0) += 1;
+                    }
+                } else {
+                    let (p, d) = &pre.public_price;
+                    let charged_ok = if who == CREATOR { exact(&(*p, d.clone())) } else { delta(&who, d) == *p as i128 };
+                    if !charged_ok {
+                        res.violations.push((
+                            "C04:public-mint-not-charged-public-price".into(),
+                            format!("{}: {:?} at {} under the public rules (price {} {}) cost the buyer {}", vname, cop, pre.now, p, d, delta(&who, d)),
+                            oi,
+                        ));
+                    }
+                    *pub_ok.entry(who.clone()).or_insert(0) += 1;
+                }
+            } else {
+                // the sale window is open: a buyer who meets every public condition is served
+                if !active && pre.now >= pre.start && !ended && exact(&pre.public_price) && has_room
+                    && *pub_ok.get(&who).unwrap_or(&0) < pre.pal && count_before < pre.pal && (pre.wl.is_none() || pre.active_cfg == Some(false))
+                {
+                    res.violations.push((
+                        "C04:public-mint-rejected-inside-window".into(),
+                        format!("{}: {:?} failed at {} >= start {} (end {:?}) with no active whitelist, exact price, {:?} mintable, MintCount {} of {}: {:?}",
+                            vname, cop, pre.now, pre.start, pre.end, pre.mintable, count_before, pre.pal, out.err),
+                        oi,
+                    ));
+                }
+                // an entitled member offering the whitelist price on a first mint of the stage is served
+                if active && !ended && member_q == Some(true) && member_spec == Some(true) && has_room {
+                    if let (Some(ci), Some(s), Some(p)) = (cur, stage_idx, &pre.wl_price) {
+                        let i = &wls[ci];
+                        let first = *wl_ok.get(&(who.clone(), i.addr.to_string(), s)).unwrap_or(&0) == 0;
+                        let total_wl: u64 = wl_ok.iter().filter(|((a, _, _), _)| *a == who).map(|(_, v)| *v).sum();
+                        let room = match i.spec.stages[s].stage_limit {
+                            None => true,
+                            Some(l) => *stage_ok.get(&(i.addr.to_string(), s)).unwrap_or(&0) < l as u64,
+                        };
+                        if exact(p) && first && total_wl == 0 && room {
+                            // not a clause of the property (it only says "succeeds only if"): recorded as an observation
+                            let why = out.err.clone().unwrap_or_default();
+                            let why = why.rsplit(": ").next().unwrap_or("").chars().take(140).collect::<String>();
+                            *res.observations.entry(format!("entitled member offering the exact whitelist price rejected while the whitelist is active: {} x {} whitelist ({})", vname, i.spec.kind.name(), why)).or_insert(0) += 1;
+                        }
+                    }
+                }
+            }
+        }
+        if let COp::UpdateStart { who, t } = cop {
+            let new = w.abs(*t);
+            if out.ok {
+                if !(pre.now < pre.start) {
+                    res.violations.push(("C04:start-time-changed-after-start".into(), format!("{}: UpdateStartTime({}) succeeded at {} >= start {}", vname, new, pre.now, pre.start), oi));
+                }
+                if new < pre.now {
+                    res.violations.push(("C04:start-time-moved-into-the-past".into(), format!("{}: UpdateStartTime({}) succeeded at {}", vname, new, pre.now), oi));
+                }
+                if pre.end.map(|en| new > en).unwrap_or(false) {
+                    res.violations.push(("C04:start-time-moved-past-end".into(), format!("{}: UpdateStartTime({}) succeeded with end time {:?}", vname, new, pre.end), oi));
+                }
+                if who != CREATOR {
+                    res.violations.push(("C04:schedule-changed-by-non-admin".into(), format!("{}: UpdateStartTime by {} succeeded", vname, who), oi));
+                }
+                if post_start != new || post_wl != pre.wl || post_end != pre.end {
+                    res.violations.push(("C04:update-start-time-wrong-result".into(), format!("{}: UpdateStartTime({}) left start {} end {:?} whitelist {:?} (was {:?})", vname, new, post_start, post_end, post_wl, pre.wl), oi));
+                }
+            } else if who == CREATOR && pre.now < pre.start && new >= pre.now && pre.end.map(|en| new <= en).unwrap_or(true) {
+                res.violations.push(("C04:safe-start-time-update-rejected".into(), format!("{}: UpdateStartTime({}) by the admin failed at {} < start {} (end {:?}): {:?}", vname, new, pre.now, pre.start, pre.end, out.err), oi));
+            }
+        }
+        if let COp::UpdateEnd { who, t } = cop {
+            let new = w.abs(*t);
+            if out.ok {
+                if ended || pre.end.is_none() {
+                    res.violations.push(("C04:end-time-changed-after-end".into(), format!("{}: UpdateEndTime({}) succeeded at {} with end time {:?}", vname, new, pre.now, pre.end), oi));
+                }
+                if new < pre.now {
+                    res.violations.push(("C04:end-time-moved-into-the-past".into(), format!("{}: UpdateEndTime({}) succeeded at {}", vname, new, pre.now), oi));
+                }
+                if new < pre.start {
+                    res.violations.push(("C04:end-time-moved-before-start".into(), format!("{}: UpdateEndTime({}) succeeded with start time {}", vname, new, pre.start), oi));
+                }
+                if who != CREATOR {
+                    res.violations.push(("C04:schedule-changed-by-non-admin".into(), format!("{}: UpdateEndTime by {} succeeded", vname, who), oi));
+                }
+                if post_end != Some(new) || post_start != pre.start || post_wl != pre.wl {
+                    res.violations.push(("C04:update-end-time-wrong-result".into(), format!("{}: UpdateEndTime({}) left end {:?} start {} whitelist {:?}", vname, new, post_end, post_start, post_wl), oi));
+                }
+            } else if who == CREATOR && pre.end.is_some() && !ended && new >= pre.now && new >= pre.start {
+                res.violations.push(("C04:safe-end-time-update-rejected".into(), format!("{}: UpdateEndTime({}) by the admin failed at {} < end {:?}, start {}: {:?}", vname, new, pre.now, pre.end, pre.start, out.err), oi));
+            }
+        }
+        if let COp::Attach { who, slot } = cop {
+            let newi = &wls[*slot];
+            let new_active_spec = newi.active_stage(pre.now).is_some();
+            let new_active_q = q(w.app(), newi.addr.as_str(), json!({"is_active": {}})).and_then(|v| v["is_active"].as_bool());
+            if new_active_q != Some(new_active_spec) {
+                res.violations.push(("C04:whitelist-activity-vs-window".into(), format!("{}: new {} whitelist windows {:?} at {}: IsActive={:?}", vname, newi.spec.kind.name(), newi.windows, pre.now, new_active_q), oi));
+            }
+            if out.ok {
+                if !(pre.now < pre.start) {
+                    res.violations.push(("C04:whitelist-set-after-start".into(), format!("{}: SetWhitelist succeeded at {} >= start {}", vname, pre.now, pre.start), oi));
+                }
+                if active {
+                    res.violations.push(("C04:whitelist-replaced-while-active".into(), format!("{}: SetWhitelist succeeded at {} while the current whitelist {:?} is active", vname, pre.now, pre.wl), oi));
+                }
+                if new_active_spec || new_active_q == Some(true) {
+                    res.violations.push(("C04:active-whitelist-attached".into(), format!("{}: SetWhitelist succeeded at {} with a new whitelist that is active (windows {:?})", vname, pre.now, newi.windows), oi));
+                }
+                if who != CREATOR {
+                    res.violations.push(("C04:schedule-changed-by-non-admin".into(), format!("{}: SetWhitelist by {} succeeded", vname, who), oi));
+                }
+                if post_wl.as_deref() != Some(newi.addr.as_str()) || post_start != pre.start || post_end != pre.end {
+                    res.violations.push(("C04:set-whitelist-wrong-result".into(), format!("{}: SetWhitelist({}) left whitelist {:?} start {} end {:?}", vname, newi.addr, post_wl, post_start, post_end), oi));
+                }
+            } else if who == CREATOR && pre.now < pre.start && !active && !new_active_spec && (pre.wl.is_none() || pre.active_cfg == Some(false)) {
+                res.violations.push(("C04:safe-whitelist-change-rejected".into(), format!("{}: SetWhitelist({} {}) by the admin failed at {} < start {} with neither whitelist active: {:?}", vname, newi.spec.kind.name(), newi.addr, pre.now, pre.start, out.err), oi));
+            }
+        }
+        // whatever the call was: once the clock has reached the start time the start and the
+        // whitelist stay; once it has reached the end time the end stays
+        if pre.now >= pre.start && (post_start != pre.start || post_wl != pre.wl) {
+            res.violations.push(("C04:schedule-changed-after-start".into(), format!("{}: {:?} at {} >= start {} changed start/whitelist to {} / {:?}", vname, cop, pre.now, pre.start, post_start, post_wl), oi));
+        }
+        if ended && post_end != pre.end {
+            res.violations.push(("C04:schedule-changed-after-end".into(), format!("{}: {:?} at {} >= end {:?} changed the end time to {:?}", vname, cop, pre.now, pre.end, post_end), oi));
+        }
+        if !matches!(cop, COp::Attach { .. } | COp::UpdateStart { .. } | COp::UpdateEnd { .. }) && (post_start != pre.start || post_wl != pre.wl || post_end != pre.end) {
+            res.violations.push(("C04:schedule-changed-by-unrelated-call".into(), format!("{}: {:?} changed start/end/whitelist", vname, cop), oi));
+        }
+        if res.violations.len() > 5 {
+            break;
+        }
+    }
+    res.coq = Some(w.finish(&init, &init_bal, &steps, &probes));
+    res
+}
+
+// =====================================================================================
+// generators
+// =====================================================================================
+fn native(a: u128) -> Vec<(String, u128)> {
+    vec![(NATIVE.to_string(), a)]
+}
+fn at(t: T) -> COp {
+    COp::At(t)
+}
+fn mint(who: &str, a: u128) -> COp {
+    COp::Mint { who: who.into(), funds: native(a) }
+}
+fn mintp(who: &str, a: u128, tree: usize, proof_for: Option<&str>) -> COp {
+    COp::MintP { who: who.into(), funds: native(a), slot: 0, tree, proof_for: proof_for.map(|s| s.to_string()) }
+}
+fn attach(who: &str, slot: usize) -> COp {
+    COp::Attach { who: who.into(), slot }
+}
+fn ust(who: &str, t: T) -> COp {
+    COp::UpdateStart { who: who.into(), t }
+}
+fn uet(who: &str, t: T) -> COp {
+    COp::UpdateEnd { who: who.into(), t }
+}
+fn drop_to(fam: Fam, who: &str) -> COp {
+    COp::MintTo { who: who.into(), recipient: NM.into(), funds: fam.airdrop_funds() }
+}
+
+const PUB: u128 = 100;
+const START: u64 = 3000;
+const END: u64 = 5000;
+
+/// schedule shapes: (whitelist, boundary instants)
+fn shape(fam: Fam, kind: Kind, sh: usize) -> (WlSpec, Vec<T>) {
+    let st = |s: T, e: T, p: u128, m: &[&str], l: Option<u32>| StageSpec {
+        start: s,
+        end: e,
+        price: p,
+        members: m.iter().map(|x| x.to_string()).collect(),
+        stage_limit: l,
+    };
+    let nshapes = if fam.oe { 4 } else { 3 };
+    let stages = if kind.tiered() {
+        match sh % nshapes {
+            // two touching stages, both over before the public start
+            0 => vec![st(T(1000, 0), T(2000, 0), 60, &[M1], None), st(T(2000, 0), T(2500, 0), 70, &[M2], None)],
+            // three separated stages, the last one overlaps the public start; off-second edges
+            1 => vec![
+                st(T(1000, 0), T(1500, 0), 60, &[M1], None),
+                st(T(1700, 3), T(2000, 5), 70, &[M2], Some(5)),
+                st(T(2500, 0), T(3500, 0), 80, &[M1, M2], None),
+            ],
+            // two stages, the first ends exactly at the public start, the second starts after it
+            2 => vec![st(T(1000, 0), T(3000, 0), 60, &[M1], None), st(T(3200, 0), T(3300, 0), 70, &[M2], None)],
+            // open edition: the second stage straddles the end time
+            _ => vec![st(T(1000, 0), T(2000, 0), 60, &[M1], None), st(T(4500, 0), T(5500, 0), 70, &[M1, M2], None)],
+        }
+    } else {
+        match sh % nshapes {
+            0 => vec![st(T(1000, 0), T(2000, 0), 60, &[M1], None)],
+            1 => vec![st(T(1000, 7), T(4000, 0), 60, &[M1], None)], // still active after the public start
+            2 => vec![st(T(1000, 0), T(3000, 0), 60, &[M1], None)], // ends exactly at the public start
+            _ => vec![st(T(1000, 0), T(6000, 0), 60, &[M1], None)], // open edition: still active at the end time
+        }
+    };
+    let mut bs: Vec<T> = vec![T(START, 0)];
+    if fam.oe {
+        bs.push(T(END, 0));
+    }
+    for s in &stages {
+        bs.push(s.start);
+        bs.push(s.end);
+    }
+    bs.sort();
+    bs.dedup();
+    (WlSpec { kind, stages, limit: 5, leaf_fmt: (sh % 4) as u8 }, bs)
+}
+
+/// who tries what at one instant
+fn block(fam: Fam, spec: Option<&WlSpec>, now: T, airdrop: bool) -> Vec<COp> {
+    let mut o = vec![];
+    let (wlp, tree, ntrees) = match spec {
+        Some(s) => {
+            let n = now.ns();
+            let tiered = s.kind.tiered();
+            let idx = s.stages.iter().position(|x| x.start.ns() <= n && if tiered { n <= x.end.ns() } else { n < x.end.ns() });
+            (s.stages[idx.unwrap_or(0)].price, idx.unwrap_or(0), s.stages.len())
+        }
+        None => (60, 0, 1),
+    };
+    if fam.merkle() && spec.map(|s| s.kind.merkle()).unwrap_or(false) {
+        o.push(mintp(NM, wlp, tree, Some(M1))); // someone else's proof
+        o.push(mintp(M1, wlp, tree, None)); // no proof
+        o.push(mintp(M2, wlp, (tree + 1) % ntrees, Some(M2))); // a proof from another stage's tree
+        o.push(mint(NM, PUB));
+        o.push(mintp(M1, PUB, tree, Some(M1))); // own proof, public price
+        o.push(mintp(M1, wlp, tree, Some(M1))); // own proof, whitelist price
+        o.push(mintp(M2, wlp, tree, Some(M2)));
+    } else {
+        o.push(mint(NM, wlp)); // not a member, whitelist price
+        o.push(mint(NM, PUB)); // not a member, public price
+        o.push(mint(M2, wlp)); // member of another stage (tiered) / not a member
+        o.push(mint(M1, PUB)); // member, public price
+        if fam.merkle() && spec.is_some() {
+            o.push(mintp(NM, wlp, 0, Some(NM))); // a proof means nothing to a list whitelist
+            o.push(mintp(M1, wlp, 0, Some(M1)));
+        } else {
+            o.push(mint(M1, wlp)); // member, whitelist price
+        }
+    }
+    if airdrop {
+        o.push(drop_to(fam, STRANGER));
+        o.push(drop_to(fam, CREATOR));
+    }
+    o
+}
+
+fn base_case(label: String, fam: Fam, wls: Vec<WlSpec>, ops: Vec<COp>) -> Case {
+    Case { label, fam, num_tokens: if fam.oe { 40 } else { 24 }, pal: 3, price: PUB, start_in: START, end_in: if fam.oe { Some(END) } else { None }, wls, ops }
+}
+
+/// one history per boundary instant of the shape: the same block at t-1ns, t, t+1ns
+fn boundary_cases(fam: Fam, kind: Option<Kind>, sh: usize) -> Vec<Case> {
+    let (spec, bs) = match kind {
+        Some(k) => {
+            let (s, b) = shape(fam, k, sh);
+            (Some(s), b)
+        }
+        None => (None, if fam.oe { vec![T(START, 0), T(END, 0)] } else { vec![T(START, 0)] }),
+    };
+    let mut v = vec![];
+    for b in bs {
+        let mut ops = vec![];
+        if spec.is_some() {
+            ops.push(attach(CREATOR, 0));
+        }
+        for d in [-1i64, 0, 1] {
+            let t = b.plus(d);
+            ops.push(at(t));
+            ops.extend(block(fam, spec.as_ref(), t, b == T(START, 0) || b == T(END, 0)));
+        }
+        v.push(base_case(
+            format!("boundary:{}:{}:shape{}:{:?}", fam.name(), kind.map(|k| k.name()).unwrap_or("none"), sh, b),
+            fam,
+            spec.iter().cloned().collect(),
+            ops,
+        ));
+    }
+    v
+}
+
+/// UpdateStartTime at its own boundaries
+fn update_start_cases(fam: Fam, kind: Option<Kind>) -> Vec<Case> {
+    let s = T(START, 0);
+    let wls: Vec<WlSpec> = kind.map(|k| shape(fam, k, 0).0).into_iter().collect();
+    let pre: Vec<COp> = if kind.is_some() { vec![attach(CREATOR, 0)] } else { vec![] };
+    let mk = |name: &str, ops: Vec<COp>| {
+        let mut o = pre.clone();
+        o.extend(ops);
+        base_case(format!("update-start:{}:{}:{}", fam.name(), kind.map(|k| k.name()).unwrap_or("none"), name), fam, wls.clone(), o)
+    };
+    let later = T(START + 100, 0);
+    let later2 = T(START + 200, 11);
+    let mut v = vec![
+        // move later, twice; the old start no longer opens the sale, the new one does, to the nanosecond
+        mk("later", vec![
+            at(T(START - 10, 0)), ust(STRANGER, later), ust(CREATOR, later),
+            at(s.plus(-1)), mint(NM, PUB), at(s), mint(NM, PUB), at(s.plus(1)), mint(NM, PUB),
+            ust(CREATOR, later2),
+            at(later.plus(-1)), mint(NM, PUB), at(later), mint(NM, PUB),
+            at(later2.plus(-1)), mint(NM, PUB), ust(CREATOR, T(START + 300, 0)),
+            at(T(START + 300, -1)), mint(NM, PUB), at(T(START + 300, 0)), mint(NM, PUB), ust(CREATOR, T(START + 400, 0)),
+            at(T(START + 300, 1)), mint(NM, PUB), ust(CREATOR, T(START + 400, 0)),
+        ]),
+        // move earlier: to now+1ns (still closed), then to exactly now (open at once, and frozen)
+        mk("earlier", vec![
+            at(T(2600, 0)), ust(CREATOR, T(2600, 1)), mint(NM, PUB), mint(M1, PUB),
+            ust(CREATOR, T(2600, 0)), mint(NM, PUB), ust(CREATOR, T(2700, 0)), ust(CREATOR, T(2600, 0)),
+            at(T(2600, 1)), mint(M1, PUB), ust(CREATOR, T(2700, 0)),
+        ]),
+        // into the past: now-1ns, creation time
+        mk("past", vec![
+            at(T(2600, 0)), ust(CREATOR, T(2600, -1)), ust(CREATOR, T(0, 0)), ust(CREATOR, T(2599, 0)), mint(NM, PUB),
+            at(T(2600, 5)), ust(CREATOR, T(2600, 4)), ust(CREATOR, T(2600, 5)), mint(NM, PUB),
+        ]),
+        // one nanosecond before the start it still works
+        mk("at-start-1ns", vec![at(s.plus(-1)), ust(STRANGER, T(START + 50, 0)), ust(CREATOR, T(START + 50, 0)), at(s), mint(NM, PUB),
+            at(T(START + 50, -1)), mint(NM, PUB), at(T(START + 50, 0)), mint(NM, PUB)]),
+        // at the start and one nanosecond after it, it is too late
+        mk("at-start", vec![at(s), ust(CREATOR, T(START + 50, 0)), ust(CREATOR, s), mint(NM, PUB), ust(CREATOR, T(START + 50, 0))]),
+        mk("at-start+1ns", vec![at(s.plus(1)), ust(CREATOR, T(START + 50, 0)), ust(CREATOR, s.plus(1)), mint(NM, PUB)]),
+    ];
+    if fam.oe {
+        let e = T(END, 0);
+        // the start may move up to the end time, not beyond it
+        v.push(mk("to-end", vec![at(T(2000, 0)), ust(CREATOR, e.plus(1)), ust(CREATOR, e), at(e.plus(-1)), mint(NM, PUB), drop_to(fam, CREATOR), at(e), mint(NM, PUB), drop_to(fam, CREATOR)]));
+        v.push(mk("to-end-1ns", vec![at(T(2000, 0)), ust(CREATOR, e.plus(-1)), at(e.plus(-2)), mint(NM, PUB), at(e.plus(-1)), mint(NM, PUB), mint(M1, PUB), at(e), mint(M2, PUB)]));
+    }
+    v
+}
+
+/// UpdateEndTime at its own boundaries (open edition)
+fn update_end_cases(fam: Fam, kind: Option<Kind>) -> Vec<Case> {
+    let (s, e) = (T(START, 0), T(END, 0));
+    let wls: Vec<WlSpec> = kind.map(|k| shape(fam, k, 0).0).into_iter().collect();
+    let pre: Vec<COp> = if kind.is_some() { vec![attach(CREATOR, 0)] } else { vec![] };
+    let mk = |name: &str, ops: Vec<COp>| {
+        let mut o = pre.clone();
+        o.extend(ops);
+        base_case(format!("update-end:{}:{}:{}", fam.name(), kind.map(|k| k.name()).unwrap_or("none"), name), fam, wls.clone(), o)
+    };
+    let later = T(END + 100, 0);
+    let both = |who: &str| vec![mint(who, PUB), drop_to(fam, CREATOR)];
+    let seq = |parts: Vec<Vec<COp>>| parts.into_iter().flatten().collect::<Vec<_>>();
+    let mut v = vec![
+        // move later: the old end no longer closes the sale, the new one does, to the nanosecond
+        mk("later", seq(vec![
+            vec![at(T(END - 10, 0)), uet(STRANGER, later), uet(CREATOR, later), at(e.plus(-1))], both(NM),
+            vec![at(e)], both(NM), vec![at(e.plus(1))], both(M1),
+            vec![at(later.plus(-1))], both(M1), vec![uet(CREATOR, T(END + 200, 3)), at(later)], both(M2),
+            vec![at(T(END + 200, 2))], both(M2), vec![at(T(END + 200, 3))], both(M2), vec![uet(CREATOR, T(END + 300, 0))],
+            vec![at(T(END + 200, 4))], both(M2), vec![uet(CREATOR, T(END + 300, 0))],
+        ])),
+        // move earlier: to now+1ns (still open for one nanosecond), and to exactly now (closed at once, for good)
+        mk("earlier", seq(vec![
+            vec![at(T(4000, 0)), uet(CREATOR, T(4000, 1))], both(NM), vec![at(T(4000, 1))], both(NM), vec![uet(CREATOR, T(4100, 0))],
+        ])),
+        mk("to-now", seq(vec![
+            vec![at(T(4000, 0)), uet(CREATOR, T(4000, 0))], both(NM), vec![uet(CREATOR, T(4100, 0)), at(T(4000, 1))], both(M1), vec![uet(CREATOR, T(4100, 0))],
+        ])),
+        // into the past
+        mk("past", seq(vec![vec![at(T(4000, 0)), uet(CREATOR, T(4000, -1)), uet(CREATOR, T(0, 0)), uet(CREATOR, T(3999, 0))], both(NM), vec![at(e.plus(-1))], both(NM), vec![at(e)], both(M1)])),
+        // before the start: the end may come down to the start, not below it
+        mk("before-start", seq(vec![vec![at(T(2000, 0)), uet(CREATOR, s.plus(-1)), uet(CREATOR, s), at(s.plus(-1))], both(NM), vec![at(s)], both(NM)])),
+        mk("to-start+1ns", seq(vec![vec![at(T(2000, 0)), uet(CREATOR, s.plus(1)), at(s.plus(-1))], both(NM), vec![at(s)], both(NM), both(M1), vec![at(s.plus(1))], both(M2)])),
+        // at end-1ns it still works; at the end and after it, it is too late
+        mk("at-end-1ns", seq(vec![vec![at(e.plus(-1)), uet(STRANGER, T(END + 50, 0)), uet(CREATOR, T(END + 50, 0)), at(e)], both(NM), vec![at(T(END + 50, -1))], both(NM), vec![at(T(END + 50, 0))], both(M1)])),
+        mk("at-end", seq(vec![vec![at(e), uet(CREATOR, T(END + 50, 0)), uet(CREATOR, e)], both(NM), vec![uet(CREATOR, T(END + 50, 0))]])),
+        mk("at-end+1ns", seq(vec![vec![at(e.plus(1)), uet(CREATOR, T(END + 50, 0)), uet(CREATOR, e.plus(1))], both(NM)])),
+    ];
+    // no end time configured: none can be introduced
+    let mut c = mk("no-end-time", seq(vec![vec![at(T(2000, 0)), uet(CREATOR, T(END, 0)), at(T(END, 1))], both(NM), vec![uet(CREATOR, T(END + 50, 0))]]));
+    c.end_in = None;
+    v.push(c);
+    v
+}
+
+/// SetWhitelist at the start boundary and at the activity boundaries of the old / the new whitelist
+fn set_whitelist_cases(fam: Fam, kind: Kind) -> Vec<Case> {
+    let stage = |s: T, e: T, p: u128, m: &str| StageSpec { start: s, end: e, price: p, members: vec![m.to_string()], stage_limit: None };
+    let mk_spec = |stages: Vec<StageSpec>| WlSpec { kind, stages, limit: 5, leaf_fmt: 0 };
+    // old: [1000, 2000) for M1; new: [1500, 2500) for M2 (two stages when tiered); late: (3500, 4000) after the public start
+    let old = mk_spec(vec![stage(T(1000, 0), T(2000, 0), 60, M1)]);
+    let new = if kind.tiered() {
+        mk_spec(vec![stage(T(1500, 0), T(1800, 0), 70, M2), stage(T(1800, 0), T(2500, 0), 75, M2)])
+    } else {
+        mk_spec(vec![stage(T(1500, 0), T(2500, 0), 70, M2)])
+    };
+    let late = mk_spec(vec![stage(T(3500, 0), T(4000, 0), 80, M2)]);
+    let wls = vec![old, new, late];
+    let probe = || -> Vec<COp> {
+        // after the attempt: who can mint now?
+        let mut o = vec![];
+        let merkle = fam.merkle() && kind.merkle();
+        for (who, p) in [(M1, 60u128), (M2, 70), (M2, 75), (M2, 80), (NM, PUB)] {
+            if merkle && who != NM {
+                // the proof that belongs to the whitelist the price belongs to
+                let slot = match p {
+                    60 => 0usize,
+                    80 => 2,
+                    _ => 1,
+                };
+                o.push(COp::MintP { who: who.into(), funds: native(p), slot, tree: if p == 75 { 1 } else { 0 }, proof_for: Some(who.into()) });
+            } else {
+                o.push(mint(who, p));
+            }
+        }
+        o
+    };
+    let mut v = vec![];
+    let mut add = |name: String, ops: Vec<COp>| {
+        v.push(base_case(format!("set-whitelist:{}:{}:{}", fam.name(), kind.name(), name), fam, wls.clone(), ops));
+    };
+    let s = T(START, 0);
+    // the start boundary, no whitelist attached yet; the late whitelist opens after the public start
+    for d in [-1i64, 0, 1] {
+        let t = s.plus(d);
+        add(format!("start{:+}ns", d), {
+            let mut o = vec![at(t), attach(STRANGER, 2), attach(CREATOR, 2)];
+            o.extend(probe());
+            if d < 0 {
+                // attached: it opens after the public start and closes the public sale to non-members
+                for t2 in [T(3500, -1), T(3500, 0), T(4000, -1), T(4000, 0)] {
+                    o.push(at(t2));
+                    o.extend(probe());
+                }
+            }
+            o
+        });
+    }
+    // replacing the old whitelist around its own activity window
+    let end_old = T(2000, 0);
+    for (nm, t) in [("old-start-1ns", T(1000, -1)), ("old-start", T(1000, 0)), ("old-start+1ns", T(1000, 1)), ("old-end-1ns", end_old.plus(-1)), ("old-end", end_old), ("old-end+1ns", end_old.plus(1))] {
+        add(nm.to_string(), {
+            let mut o = vec![attach(CREATOR, 0), at(t)];
+            // the late whitelist is not active at any of these instants
+            o.push(attach(CREATOR, 2));
+            o.extend(probe());
+            o.push(at(T(3500, 0)));
+            o.extend(probe());
+            o
+        });
+    }
+    // attaching a new whitelist around its own activity window
+    let (ns, ne) = (T(1500, 0), T(2500, 0));
+    for (nm, t) in [("new-start-1ns", ns.plus(-1)), ("new-start", ns), ("new-start+1ns", ns.plus(1)), ("new-end-1ns", ne.plus(-1)), ("new-end", ne), ("new-end+1ns", ne.plus(1))] {
+        add(nm.to_string(), {
+            let mut o = vec![at(t), attach(CREATOR, 1)];
+            o.extend(probe());
+            o.push(at(t.plus(1)));
+            o.extend(probe());
+            o
+        });
+    }
+    // replace twice before anything is active, then the clock walks into the last one
+    add("replace-twice".into(), {
+        let mut o = vec![attach(CREATOR, 0), attach(CREATOR, 1), attach(CREATOR, 0), attach(CREATOR, 1), at(T(1500, -1))];
+        o.extend(probe());
+        o.push(at(T(1500, 0)));
+        o.push(attach(CREATOR, 0));
+        o.extend(probe());
+        o
+    });
+    v
+}
+
+/// structured random histories: the clock jumps between boundary instants (+-1ns) of the
+/// case's own schedule; mints, schedule updates and whitelist changes in any order
+fn random_case(rng: &mut Rng, fam: Fam, n: usize, lits: &[u128]) -> Case {
+    let kinds = fam.compatible();
+    let kind = *rng.pick(kinds);
+    let sh = rng.below(4) as usize;
+    let (mut spec, mut bs) = shape(fam, kind, sh);
+    spec.leaf_fmt = rng.below(4) as u8;
+    if rng.chance(1, 3) {
+        spec.stages[0].stage_limit = Some(rng.range(1, 2) as u32);
+    }
+    // a second whitelist to swap in: a window somewhere before or after the start
+    let k2 = *rng.pick(kinds);
+    let (a, b) = *rng.pick(&[(1200u64, 1400u64), (2100, 2300), (2800, 3100), (3300, 3600)]);
+    let spec2 = WlSpec {
+        kind: k2,
+        stages: vec![StageSpec { start: T(a, 0), end: T(b, 0), price: 65, members: vec![M2.to_string(), NM.to_string()], stage_limit: None }],
+        limit: 5,
+        leaf_fmt: 0,
+    };
+    bs.push(T(a, 0));
+    bs.push(T(b, 0));
+    let mut starts = vec![T(START, 0)];
+    if fam.oe {
+        starts.push(T(END, 0));
+    }
+    let mut ops = vec![];
+    if rng.chance(3, 4) {
+        ops.push(attach(CREATOR, 0));
+    }
+    let mut now = T(0, 0);
+    let buyers = [M1, M2, NM, STRANGER, CREATOR];
+    for _ in 0..n {
+        match rng.below(100) {
+            0..=21 => {
+                // jump forward to a boundary instant of the schedule (or just a bit)
+                let mut cands: Vec<T> = bs.iter().chain(starts.iter()).flat_map(|b| [b.plus(-1), *b, b.plus(1)]).filter(|t| t.ns() > now.ns()).collect();
+                cands.sort();
+                let t = if cands.is_empty() || rng.chance(1, 6) { T(now.0 + rng.range(1, 120), rng.below(3) as i64) } else { cands[rng.below(cands.len().min(4) as u64) as usize] };
+                now = t;
+                ops.push(at(t));
+            }
+            22..=63 => {
+                let who = *rng.pick(&buyers);
+                let prices: Vec<u128> = spec.stages.iter().map(|s| s.price).chain([PUB, 65, PUB - 1]).collect();
+                // now and then an amount next to a literal of the contract source
+                let p = if !lits.is_empty() && rng.chance(1, 12) { *rng.pick(lits) } else { *rng.pick(&prices) };
+                if fam.merkle() && rng.chance(2, 3) {
+                    let pf = match rng.below(4) {
+                        0 => None,
+                        1 => Some(*rng.pick(&buyers)),
+                        _ => Some(who),
+                    };
+                    ops.push(COp::MintP { who: who.into(), funds: native(p), slot: rng.below(2) as usize, tree: rng.below(3) as usize, proof_for: pf.map(|s| s.to_string()) });
+                } else {
+                    ops.push(mint(who, p));
+                }
+            }
+            64..=76 => {
+                let who = if rng.chance(5, 6) { CREATOR } else { STRANGER };
+                let base = *rng.pick(&[now, now, *starts.last().unwrap(), starts[0], T(now.0 + 60, 0)]);
+                let t = base.plus(rng.range(0, 2) as i64 - 1);
+                if fam.oe && rng.chance(1, 2) {
+                    ops.push(uet(who, t));
+                } else {
+                    ops.push(ust(who, t));
+                }
+                starts.push(t);
+            }
+            77..=88 => {
+                let who = if rng.chance(5, 6) { CREATOR } else { STRANGER };
+                ops.push(attach(who, rng.below(2) as usize));
+            }
+            89..=92 => ops.push(COp::WlAddMember { who: (*rng.pick(&[NM, STRANGER])).into() }),
+            93..=96 => ops.push(drop_to(fam, *rng.pick(&[CREATOR, CREATOR, STRANGER]))),
+            _ => {
+                if fam.oe {
+                    ops.push(drop_to(fam, CREATOR));
+                } else {
+                    ops.push(COp::MintFor { who: CREATOR.into(), token_id: rng.range(1, 24) as u32, recipient: M1.into() });
+                }
+            }
+        }
+    }
+    base_case(format!("random:{}:{}+{}", fam.name(), kind.name(), k2.name()), fam, vec![spec, spec2], ops)
+}
+
+/// malformed / adversarial argument stream for the Merkle variants and odd funds
+fn malformed_case(rng: &mut Rng, fam: Fam) -> Case {
+    let kinds = fam.compatible();
+    let kind = *rng.pick(kinds);
+    let (spec, _) = shape(fam, kind, 1);
+    let mut ops = vec![attach(CREATOR, 0), at(T(1000, 8))];
+    for _ in 0..14 {
+        let who = *rng.pick(&[M1, NM]);
+        let funds = match rng.below(5) {
+            0 => vec![],
+            1 => vec![(IBC.to_string(), 60)],
+            2 => vec![(NATIVE.to_string(), 60), (IBC.to_string(), 60)],
+            3 => native(61),
+            _ => native(60),
+        };
+        if fam.merkle() {
+            let proof = match rng.below(4) {
+                0 => None,
+                1 => Some(vec![]),
+                2 => Some(vec!["zz".to_string()]),
+                _ => Some(vec![hex::encode([7u8; 32]), hex::encode([9u8; 16])]),
+            };
+            ops.push(COp::MintArgs { who: who.into(), funds, stage: *rng.pick(&[None, Some(0), Some(1), Some(9)]), proof, allocation: *rng.pick(&[None, Some(0), Some(5), Some(1000)]) });
+        } else {
+            ops.push(COp::Mint { who: who.into(), funds });
+        }
+    }
+    base_case(format!("malformed:{}:{}", fam.name(), kind.name()), fam, vec![spec], ops)
+}
+
+fn corpus(thorough: bool, rng: &mut Rng) -> Vec<Case> {
+    let mut v = vec![];
+    for (fi, fam) in all_fams().into_iter().enumerate() {
+        // the start (and end) boundary with no whitelist at all
+        v.extend(boundary_cases(fam, None, 0));
+        let kinds = fam.compatible();
+        let nshapes = if fam.oe { 4 } else { 3 };
+        for (ki, kind) in kinds.iter().enumerate() {
+            for sh in 0..nshapes {
+                let cs = boundary_cases(fam, Some(*kind), sh);
+                if thorough {
+                    v.extend(cs);
+                } else {
+                    // quick tier: every (variant, kind, shape) keeps the start and end boundaries;
+                    // the other boundaries are sampled
+                    for c in cs {
+                        let keep = c.label.ends_with(&format!("{:?}", T(START, 0))) || c.label.ends_with(&format!("{:?}", T(END, 0))) || rng.chance(1, 4);
+                        if keep {
+                            v.push(c);
+                        }
+                    }
+                }
+            }
+            if thorough || ki == fi % kinds.len() {
+                v.extend(set_whitelist_cases(fam, *kind));
+            } else {
+                // the start boundary of SetWhitelist for every pairing even in the quick tier
+                v.extend(set_whitelist_cases(fam, *kind).into_iter().filter(|c| c.label.contains(":start")));
+            }
+        }
+        v.extend(update_start_cases(fam, None));
+        if fam.oe {
+            v.extend(update_end_cases(fam, None));
+        }
+        if thorough {
+            for kind in kinds {
+                v.extend(update_start_cases(fam, Some(*kind)));
+                if fam.oe {
+                    v.extend(update_end_cases(fam, Some(*kind)));
+                }
+            }
+        } else {
+            let k = kinds[fi % kinds.len()];
+            v.extend(update_start_cases(fam, Some(k)).into_iter().take(2));
+            if fam.oe {
+                v.extend(update_end_cases(fam, Some(k)).into_iter().take(2));
+            }
+        }
+    }
+    v
+}
+
+#[derive(Deserialize)]
+struct ReplayFile {
+    case: Case,
+}
+
+pub fn run(a: &Args) {
+    let out = OutDir::new(&a.out);
+    let mut rep = Report { property: "C04".into(), tier: a.tier.clone(), seed: a.seed, ..Default::default() };
+    let cases: Vec<Case> = if let Some(p) = &a.replay {
+        let rf: ReplayFile = serde_json::from_str(&std::fs::read_to_string(p).expect("replay file")).expect("replay json");
+        vec![rf.case]
+    } else {
+        let mut rng = Rng::new(a.seed);
+        let mut v = corpus(a.thorough(), &mut rng);
+        let lits: Vec<u128> = harvest_literals(&[
+            "contracts/minters/vending-minter/src/contract.rs",
+            "contracts/minters/vending-minter-merkle-wl/src/contract.rs",
+            "contracts/minters/open-edition-minter/src/contract.rs",
+        ])
+        .into_iter()
+        .flat_map(|x| [x.saturating_sub(1), x, x + 1])
+        .filter(|x| *x > 0 && *x < 1_000_000)
+        .collect();
+        let per_variant = if a.thorough() { 40 } else { 4 };
+        for fam in all_fams() {
+            for _ in 0..per_variant {
+                let n = if a.thorough() { 60 } else { 36 };
+                v.push(random_case(&mut rng, fam, n, &lits));
+            }
+            v.push(malformed_case(&mut rng, fam));
+        }
+        v
+    };
+    let mut coq_cases = vec![];
+    let mut nviol = 0;
+    let mut per_key_count: BTreeMap<String, u32> = BTreeMap::new();
+    let mut instants: BTreeSet<String> = BTreeSet::new();
+    let mut observations: BTreeMap<String, u64> = BTreeMap::new();
+    let mut classes: BTreeMap<String, (u64, u64)> = BTreeMap::new();
+    for (i, c) in cases.iter().enumerate() {
+        let r = run_case(c);
+        rep.evaluations += r.steps;
+        for (k, v) in &r.hist {
+            *rep.histogram.entry(k.clone()).or_insert(0) += v;
+        }
+        for s in &r.instants {
+            instants.insert(format!("{}:{}", c.fam.name(), s));
+        }
+        for (k, n) in &r.observations {
+            *observations.entry(k.clone()).or_insert(0) += n;
+        }
+        rep.distinct_nontrivial += r.ok_steps;
+        let cl = classes.entry(format!("{}:{}", if c.fam.oe { "oe" } else { "vending" }, c.label.split(':').next().unwrap_or(""))).or_insert((0u64, 0u64));
+        cl.0 += 1;
+        cl.1 += r.steps;
+        let mut seen = BTreeSet::new();
+        for (key, what, oi) in r.violations.iter() {
+            if !seen.insert(key.clone()) {
+                continue;
+            }
+            nviol += 1;
+            // a few replays per kind of violation, so that one frequent kind does not hide the others
+            let per_key = per_key_count.entry(key.clone()).or_insert(0u32);
+            *per_key += 1;
+            if *per_key <= 3 && rep.violations.len() < 30 {
+                // shrink: nothing after the offending op is needed
+                let mut small = c.clone();
+                small.ops.truncate(oi + 1);
+                let body = format!(
+                    "{{\n \"property\": \"C04\",\n \"case\": {},\n \"violation\": {}\n}}\n",
+                    serde_json::to_string(&small).unwrap(),
+                    serde_json::to_string(what).unwrap()
+                );
+                let path = out.write_replay(&format!("C04-{}.json", nviol), &body);
+                rep.violations.push(Violation { key: key.clone(), what: format!("[{}] {}", c.label, what), replay: path });
+            }
+        }
+        if rep.samples.len() < 3 && i % 97 == 5 {
+            rep.samples.push(json!({"label": c.label, "variant": c.fam.name(),
+                "whitelists": c.wls.iter().map(|s| format!("{:?}", s)).collect::<Vec<_>>(),
+                "first_ops": c.ops.iter().take(10).map(|o| format!("{:?}", o)).collect::<Vec<_>>(), "steps": r.steps, "ok_steps": r.ok_steps}));
+        }
+        if let Some(cq) = r.coq {
+            coq_cases.push(cq);
+        }
+    }
+    rep.rule = "histories on each of the six vending minters and the three open-edition minters x its compatible whitelist kinds (plain minters x {plain, tiered}; flex x {flex, tiered-flex}; vending merkle x {plain, tiered, merkle, tiered-merkle}; open-edition merkle x {merkle, tiered-merkle}; and no whitelist): per boundary instant of the schedule (minter start; open-edition end; whitelist start/end; every stage edge of 2- and 3-stage tiered whitelists, touching / separated / overlapping the public start / straddling the end) one history that runs the same block of buyers (member, member of another stage, non-member; own proof / someone else's proof / no proof; airdrops at the start and end boundaries) at t-1ns, t, t+1ns; UpdateStartTime (later, earlier-but-not-past, past, at start-1ns / start / start+1ns, up to / beyond the end, non-admin), UpdateEndTime (later, earlier, to now, past, down to / below the start, at end-1ns / end / end+1ns, no end time configured, non-admin) and SetWhitelist (at start-1ns / start / start+1ns, around the old and the new whitelist's activity edges, double replacement, non-admin) histories; structured random interleavings; a malformed-argument stream. evaluations = minter steps executed on the real contracts; distinct_nontrivial = steps that succeeded (state-changing)".into();
+    rep.notes.push(format!("{} histories; {} distinct (variant, op kind, clock offset) triples visited", cases.len(), instants.len()));
+    rep.notes.push(format!("histories/steps per class: {:?}", classes));
+    for (k, n) in &observations {
+        rep.notes.push(format!("observation ({} times): {}", n, k));
+    }
+    out.write_cases(
+        "C04",
+        "From LP Require Import Num Pay Sg1 Bank MinterVending MinterOpen SaleCorr SaleOeCorr C04Corr.",
+        "c04_case",
+        "c04_check",
+        &coq_cases,
+        6,
+        &mut rep,
+    );
+    out.finish(&rep);
+    println!("C04 harness: {} cases, {} steps, {} monitor violations", cases.len(), rep.evaluations, nviol);
 }
